@@ -14,6 +14,10 @@ RULE_TRACE = ("seeded generators (directed operand classes: ties, powers of two,
 def MC(cfg, what, tier="quick", slices=16):
     return {"model": "MC_Small.tla", "cfg": cfg, "what": what, "tier": tier, "slices": slices}
 
+W_MACHINE = "the library as a state machine over a small format: ALL accumulator values reachable by arbitrary chains of the transcribed +, -, *, /, %, reversed forms, f64 operands, neg, abs, floor, ceil, round, trunc, fract, recip from the seeds (inside a magnitude window) are normalised, and every transition satisfies the contract of its operation"
+def MCW(cfg, what, tier="quick"):
+    return {"model": "MC_Machine.tla", "cfg": cfg, "what": what, "tier": tier, "kind": "whole"}
+
 W_NEW = "2Sum/2Prod/new_div transcriptions on every word pair (a.hi in one binade x all words of a full small format incl. subnormals, zeros)"
 W_ADD = "Alg. 4/6 transcriptions (operator, reversed-operand and assignment copies) on all valid pairs: contract clauses, copies agree, commutativity, a-b == a+(-b), antisymmetry up to zero sign"
 W_MUL = "Alg. 9/12 transcriptions on all valid pairs: contract clauses incl. unit/power-of-two exactness, copies agree, (-a)b == -(ab) up to zero sign"
@@ -90,7 +94,8 @@ PLAN = {
     "C01": {
         "level": "model_checking",
         "rule": RULE_TRACE + "; prog = random programs of 50-200 calls over 8 registers with results fed back (the Normalised invariant is evaluated after every call)",
-        "models": [MC("MC_P3_wide.cfg", W_WIDE), MC("MC_P3_frac.cfg", W_FRAC), MC("MC_P3_new.cfg", W_NEW), MC("MC_P3_addsub.cfg", W_ADD, "thorough"), MC("MC_P3_div.cfg", W_DIV, "thorough")],
+        "models": [MCW("MC_Machine_P3.cfg", W_MACHINE), MCW("MC_Machine_P4.cfg", W_MACHINE, "thorough"),
+                   MC("MC_P3_wide.cfg", W_WIDE), MC("MC_P3_frac.cfg", W_FRAC), MC("MC_P3_new.cfg", W_NEW), MC("MC_P3_addsub.cfg", W_ADD, "thorough"), MC("MC_P3_div.cfg", W_DIV, "thorough")],
         "traces": [T("prog", (12, 1500), (8, 14)), T("arith_all", (100, 2000), (2, 6)), T("arith_new", (120, 2000), (4, 8)), T("conv", (300, 6000), (2, 6)), T("frac", (200, 4000), (2, 4)),
                    T("grid07", (64, 16), (4, 16))],
     },
